@@ -86,11 +86,15 @@ func (vm *Vm) EXTEND_REVERSED(items py.Tuple) {
 
 // Adds a traceback to the exc passed in for the current vm state
 func (vm *Vm) AddTraceback(exc *py.ExceptionInfo) {
+	// frame.Lasti has already been advanced past the instruction
+	// being executed (and its argument) so step back into it to
+	// find its line number, otherwise when it is the last
+	// instruction of its line we report the following line.
 	exc.Traceback = &py.Traceback{
 		Next:   exc.Traceback,
 		Frame:  vm.frame,
 		Lasti:  vm.frame.Lasti,
-		Lineno: vm.frame.Code.Addr2Line(vm.frame.Lasti),
+		Lineno: vm.frame.Code.Addr2Line(vm.frame.Lasti - 1),
 	}
 }
 
